@@ -100,8 +100,19 @@ def thread_lifecycle(evs):
         return r
 
     for e in evs:
-        if e.k == "F" and e.what == "clone":
-            r = new_rec(e.new, e.tgid)
+        if e.k == "N":
+            # the tracer met this task before its parent's clone event (the order of the two stops is not
+            # defined): what it does from here on belongs to a NEW incarnation of the tid, which the F line
+            # adopts. Without this, the first calls of a thread that got a reused tid (pid_max is 32768 here)
+            # were charged to the dead previous holder of that tid.
+            r = new_rec(e.tid, e.tgid)
+            r["provisional"] = True
+        elif e.k == "F" and e.what == "clone":
+            r = cur.get(e.new)
+            if r is not None and r.get("provisional") and not r["spawned"]:
+                r["provisional"] = False
+            else:
+                r = new_rec(e.new, e.tgid)
             r["spawned"] = True
             r["clone_seq"] = e.seq
             st = pending_stack.pop(e.tid, None)
